@@ -37,8 +37,18 @@ def scalar_ctype(t):
     return None
 
 def qname_of(t):
-    t = t.strip_typedefs()
-    return t.name or t.tag
+    """qualified name of a struct/union type; an anonymous aggregate reached through a typedef
+    (typedef struct {...} Imaginary;) is named by the typedef"""
+    st = t.strip_typedefs()
+    n = st.name or st.tag
+    if n:
+        return n
+    u = t
+    last = None
+    while u.code == gdb.TYPE_CODE_TYPEDEF:
+        last = u.name
+        u = u.target()
+    return last
 
 pending = []
 seen = set()
@@ -64,11 +74,12 @@ def ctype(t, depth=0):
     if s:
         return s
     if c in (gdb.TYPE_CODE_PTR, gdb.TYPE_CODE_REF, gdb.TYPE_CODE_RVALUE_REF):
-        tg = t.target().strip_typedefs()
+        tg0 = t.target()
+        tg = tg0.strip_typedefs()
         if tg.code in (gdb.TYPE_CODE_FUNC, gdb.TYPE_CODE_METHOD, gdb.TYPE_CODE_VOID):
             return 'void *'
         if tg.code in (gdb.TYPE_CODE_STRUCT, gdb.TYPE_CODE_UNION):
-            q = qname_of(tg)
+            q = qname_of(tg0)
             if q is None:
                 return 'void *'
             return ('union' if tg.code == gdb.TYPE_CODE_UNION else 'struct') + ' @Q' + q + '@ *'
@@ -77,7 +88,7 @@ def ctype(t, depth=0):
             return 'void *'
         return inner + ' *'
     if c in (gdb.TYPE_CODE_STRUCT, gdb.TYPE_CODE_UNION):
-        q = qname_of(t)
+        q = qname_of(t0)
         kw = 'union' if c == gdb.TYPE_CODE_UNION else 'struct'
         if q is None:
             # anonymous aggregate: inline
@@ -104,6 +115,9 @@ def layout_body(t):
         # so a narrow first member would leave the other bytes unconstrained on every read.
         # Member order does not affect the layout of a union.
         flds = sorted(flds, key=lambda f: -(f.type.sizeof if hasattr(f, 'bitpos') else 0))
+    else:
+        # declaration order is not layout order (a primary vptr precedes a non-polymorphic base)
+        flds = sorted(flds, key=lambda f: (f.bitpos if hasattr(f, 'bitpos') else -1))
     for f in flds:
         if not hasattr(f, 'bitpos'):
             continue            # static member
@@ -181,10 +195,13 @@ def candidates(name, kinds):
 # --- signature hints: exact types of return value and parameters of functions in the dump
 hint_struct, hint_scalar = {}, {}
 def base_type(t):
-    t = t.strip_typedefs()
-    while t.code in (gdb.TYPE_CODE_PTR, gdb.TYPE_CODE_REF, gdb.TYPE_CODE_RVALUE_REF, gdb.TYPE_CODE_ARRAY):
-        t = t.target().strip_typedefs()
-    return t
+    """strip pointers/references/arrays (and the typedefs in between), keep the innermost typedef"""
+    while True:
+        st = t.strip_typedefs()
+        if st.code in (gdb.TYPE_CODE_PTR, gdb.TYPE_CODE_REF, gdb.TYPE_CODE_RVALUE_REF, gdb.TYPE_CODE_ARRAY):
+            t = st.target()
+            continue
+        return t
 def find_func(mangled, dem):
     names = [mangled, dem]
     # strip a leading return type (templates): last depth-0 space before the parameter list
@@ -220,7 +237,7 @@ for sg in req.get('sigs', []):
             continue
         kind, uid, name = w
         bt = base_type(gt)
-        if kind in ('struct', 'union') and bt.code in (gdb.TYPE_CODE_STRUCT, gdb.TYPE_CODE_UNION):
+        if kind in ('struct', 'union') and bt.strip_typedefs().code in (gdb.TYPE_CODE_STRUCT, gdb.TYPE_CODE_UNION):
             q = qname_of(bt)
             if q:
                 hint_struct.setdefault(uid, q)
@@ -236,28 +253,34 @@ for uid, name, q in req.get('structs', []):
         q = hint_struct[uid]
     if q:
         try:
-            t = gdb.lookup_type(q).strip_typedefs()
+            t = gdb.lookup_type(q)
         except gdb.error:
             t = None
     if t is None:
         cs = []
         for cq in candidates(name, None):
             try:
-                ct = gdb.lookup_type(cq).strip_typedefs()
+                ct = gdb.lookup_type(cq)
             except gdb.error:
                 continue
-            if ct.code in (gdb.TYPE_CODE_STRUCT, gdb.TYPE_CODE_UNION):
+            if ct.strip_typedefs().code in (gdb.TYPE_CODE_STRUCT, gdb.TYPE_CODE_UNION):
                 qn = qname_of(ct)
                 if qn and qn not in cs:
                     cs.append(qn)
         if len(cs) == 1:
-            t = gdb.lookup_type(cs[0]).strip_typedefs()
+            t = gdb.lookup_type(cs[0])
         else:
             out['structs'][uid] = {'error': 'cannot resolve struct %s (uid %s, hint %s): candidates %s' % (name, uid, q, cs[:8])}
             continue
     qn = qname_of(t)
-    out['structs'][uid] = {'qname': qn, 'kind': 'union' if t.code == gdb.TYPE_CODE_UNION else 'struct'}
+    out['structs'][uid] = {'qname': qn, 'kind': 'union' if t.strip_typedefs().code == gdb.TYPE_CODE_UNION else 'struct'}
     want_layout(qn)
+
+for q in req.get('extra_structs', []):
+    try:
+        gdb.lookup_type(q); want_layout(q)
+    except gdb.error as e:
+        out['errors'].append('no type %s (requested by the job)' % q)
 
 # --- scalar requests: [uid, name]
 for uid, name in req.get('scalars', []):
